@@ -10,6 +10,13 @@ from __future__ import annotations
 MAX_NODES = 5000
 
 
+def kind_of(n):
+    """the kind of a typed node; None for plain nodes (where `node.kind` may be a forwarded attribute of the data)"""
+    from nutree.typed_tree import TypedNode
+
+    return n.kind if isinstance(n, TypedNode) else None
+
+
 class Walk:
     __slots__ = ("pre", "parent", "kids", "problems", "depth")
 
@@ -101,7 +108,7 @@ def snapshot(tree, uids: Uids, label=None, start=None):
             label(n),
             id(n.data),
             n.data_id,
-            getattr(n, "kind", None),
+            kind_of(n),
             dict(m) if m else None,
             [one(c, depth + 1) for c in n.children],
         ]
